@@ -1,12 +1,11 @@
 CONSTANTS
-  TermsOf <- TraceTerms
-  ShortOf <- TraceShort
+  LabelTerms <- AbsTerms
   Variant = "ok"
   Labels <- L3
   MaxNodes = 1
   MaxDepth = 4
   Alphabet <- AlphaCore
   MaxToks = 1
-  Gen <- Atoms
+  Big = FALSE
 SPECIFICATION TraceSpec
 INVARIANT Report
